@@ -733,6 +733,10 @@ class NetworkServiceElement(ApplicationServiceElement):
         if _debug: NetworkServiceElement._debug("__init__ eid=%r", eid)
         ApplicationServiceElement.__init__(self, eid)
 
+        # networks for which a Who-Is-Router-To-Network has been passed along
+        # and the answer has not come back yet
+        self.whois_forwarded = set()
+
         # network number is timeout
         self.network_number_is_task = None
 
@@ -977,6 +981,10 @@ class NetworkServiceElement(ApplicationServiceElement):
                     whoisrtn.npduSADR = RemoteStation(adapter.adapterNet, npdu.pduSource.addrAddr)
                 if _debug: NetworkServiceElement._debug("    - whoisrtn: %r", whoisrtn)
 
+                # the answer is to be passed back, whatever has been learned
+                # by the time it arrives
+                self.whois_forwarded.add(dnet)
+
                 # send it to all of the (other) adapters
                 for xadapter in sap.adapters.values():
                     if xadapter is not adapter:
@@ -992,11 +1000,15 @@ class NetworkServiceElement(ApplicationServiceElement):
 
         # only news is passed along to the other networks, an announcement
         # that says what is already known has been relayed before and would
-        # otherwise travel around a cycle in the topology for ever
+        # otherwise travel around a cycle in the topology for ever; the answer
+        # to a question that was passed along is always passed back
         news = False
         for dnet in npdu.iartnNetworkList:
             router_info = sap.router_info_cache.get_router_info(adapter.adapterNet, dnet)
             if (router_info is None) or (router_info.address != npdu.pduSource):
+                news = True
+            if dnet in self.whois_forwarded:
+                self.whois_forwarded.discard(dnet)
                 news = True
 
         # pass along to the service access point
